@@ -45,7 +45,16 @@ pub struct GroupSpec {
 #[serde(tag = "t")]
 pub enum Step {
     NewRoom { who: usize, room: usize, admins: Vec<usize>, groups: Vec<GroupSpec>, dt: i64 },
-    AddAdmin { who: usize, room: usize, key: usize, enabled: bool, dt: i64 },
+    AddAdmin {
+        who: usize,
+        room: usize,
+        key: usize,
+        enabled: bool,
+        dt: i64,
+        /// only the new admin learns this change now: the other peers will receive it together with the next ones
+        #[serde(default)]
+        lag: bool,
+    },
     AddGroup { who: usize, room: usize, spec: GroupSpec, dt: i64 },
     AddUser {
         who: usize,
@@ -68,7 +77,16 @@ pub enum Step {
         #[serde(default)]
         nb: bool,
     },
-    Create { who: usize, row: usize, room: usize, ent: usize, dt: i64 },
+    Create {
+        who: usize,
+        row: usize,
+        room: usize,
+        ent: usize,
+        dt: i64,
+        /// length of the text when the row is meant to be close to the size limit (0: an ordinary row)
+        #[serde(default)]
+        big: usize,
+    },
     Nested { who: usize, row: usize, room: usize, dt: i64 },
     Update { who: usize, row: usize, dt: i64 },
     Move { who: usize, row: usize, to: usize, dt: i64 },
@@ -262,7 +280,23 @@ pub fn generate(seed: u64, property: &str, thorough: bool) -> Trace {
             continue;
         }
         match rw.weighted(&w) {
-            0 => steps.push(Step::AddAdmin { who, room, key: rw.usize(nodes), enabled: rw.chance(2, 3), dt: dt_def }),
+            0 => {
+                let key = rw.usize(nodes);
+                if nodes >= 3 && key != who && rw.chance(1, 3) {
+                    // the new admin changes the room before the other peers have seen that it is one
+                    let group = rw.usize(groups_in_room[room]);
+                    steps.push(Step::AddAdmin { who, room, key, enabled: true, dt: dt_def, lag: true });
+                    if rw.chance(1, 2) {
+                        let right = RightSpec { ent: rw.usize(RIGHT_ENTS.len()), own: rw.chance(1, 2), all: rw.chance(1, 3) };
+                        steps.push(Step::AddRight { who: key, room, group, right, dt: 20 + rw.range(1000, 3_600_000), nb: false });
+                    } else {
+                        steps.push(Step::AddUser { who: key, room, group, key: rw.usize(nodes), enabled: rw.chance(2, 3), dt: 20 + rw.range(1000, 3_600_000), nb: false });
+                    }
+                    steps.push(Step::Grid);
+                } else {
+                    steps.push(Step::AddAdmin { who, room, key, enabled: rw.chance(2, 3), dt: dt_def, lag: false });
+                }
+            }
             1 => {
                 steps.push(Step::AddGroup { who, room, spec: gen_group(&mut rw, nodes), dt: dt_def });
                 groups_in_room[room] += 1;
@@ -281,7 +315,9 @@ pub fn generate(seed: u64, property: &str, thorough: bool) -> Trace {
                 });
             }
             5 => {
-                steps.push(Step::Create { who, row: nrows, room, ent: rw.usize(ENTS.len()), dt });
+                // one creation in ten is sized within a few hundred bytes of the 2 KB limit, on either side
+                let big = if rw.chance(1, 10) { 1650 + rw.usize(460) } else { 0 };
+                steps.push(Step::Create { who, row: nrows, room, ent: rw.usize(ENTS.len()), dt, big });
                 nrows += 1;
             }
             6 => {
@@ -332,7 +368,7 @@ pub fn directed(property: &str) -> Vec<Trace> {
                 vec![
                     Step::NewRoom { who: 0, room: 0, admins: vec![0], groups: vec![full(vec![0])], dt: 20 },
                     Step::NewRoom { who: 0, room: 1, admins: vec![0], groups: vec![full(vec![0, 1])], dt: 20 },
-                    Step::Create { who: 0, row: 0, room: 0, ent: 0, dt: DAY_MS },
+                    Step::Create { who: 0, row: 0, room: 0, ent: 0, dt: DAY_MS, big: 0 },
                     Step::Move { who: 1, row: 0, to: 1, dt: DAY_MS },
                 ],
             ));
@@ -341,7 +377,7 @@ pub fn directed(property: &str) -> Vec<Trace> {
                 2,
                 vec![
                     Step::NewRoom { who: 0, room: 0, admins: vec![0], groups: vec![own_only(vec![1])], dt: 20 },
-                    Step::Create { who: 1, row: 0, room: 0, ent: 0, dt: DAY_MS },
+                    Step::Create { who: 1, row: 0, room: 0, ent: 0, dt: DAY_MS, big: 0 },
                     Step::AddRight { who: 0, room: 0, group: 0, right: RightSpec { ent: 0, own: false, all: false }, dt: 1000, nb: false },
                     Step::Update { who: 1, row: 0, dt: DAY_MS },
                 ],
@@ -352,8 +388,8 @@ pub fn directed(property: &str) -> Vec<Trace> {
                 vec![
                     Step::NewRoom { who: 0, room: 0, admins: vec![0], groups: vec![own_only(vec![1])], dt: 20 },
                     Step::NewRoom { who: 0, room: 1, admins: vec![0], groups: vec![full(vec![1])], dt: 20 },
-                    Step::Create { who: 1, row: 0, room: 0, ent: 0, dt: DAY_MS },
-                    Step::Create { who: 1, row: 1, room: 0, ent: 0, dt: 1000 },
+                    Step::Create { who: 1, row: 0, room: 0, ent: 0, dt: DAY_MS, big: 0 },
+                    Step::Create { who: 1, row: 1, room: 0, ent: 0, dt: 1000, big: 0 },
                     Step::AddRight { who: 0, room: 0, group: 0, right: RightSpec { ent: 0, own: false, all: false }, dt: 3_600_000, nb: false },
                     Step::Move { who: 1, row: 0, to: 1, dt: DAY_MS },
                     Step::AddRight { who: 0, room: 0, group: 0, right: RightSpec { ent: 0, own: true, all: false }, dt: 3_600_000, nb: false },
@@ -365,8 +401,8 @@ pub fn directed(property: &str) -> Vec<Trace> {
                 2,
                 vec![
                     Step::NewRoom { who: 0, room: 0, admins: vec![0], groups: vec![own_only(vec![0, 1])], dt: 20 },
-                    Step::Create { who: 0, row: 0, room: 0, ent: 0, dt: DAY_MS },
-                    Step::Create { who: 1, row: 1, room: 0, ent: 0, dt: DAY_MS },
+                    Step::Create { who: 0, row: 0, room: 0, ent: 0, dt: DAY_MS, big: 0 },
+                    Step::Create { who: 1, row: 1, room: 0, ent: 0, dt: DAY_MS, big: 0 },
                     Step::RefAdd { who: 0, row: 0, target: 1, dt: DAY_MS },
                     Step::Update { who: 1, row: 0, dt: DAY_MS },
                     Step::RefDel { who: 1, row: 0, target: 1, dt: DAY_MS },
@@ -428,11 +464,23 @@ pub fn directed(property: &str) -> Vec<Trace> {
                 2,
                 vec![
                     Step::NewRoom { who: 0, room: 0, admins: vec![0, 1], groups: vec![own_only(vec![1])], dt: 20 },
-                    Step::AddAdmin { who: 0, room: 0, key: 1, enabled: false, dt: 3_600_000 },
+                    Step::AddAdmin { who: 0, room: 0, key: 1, enabled: false, dt: 3_600_000, lag: false },
                     Step::AddUser { who: 0, room: 0, group: 0, key: 1, enabled: false, dt: DAY_MS, nb: false },
                     Step::AddUser { who: 0, room: 0, group: 0, key: 1, enabled: true, dt: DAY_MS, nb: false },
                     Step::AddRight { who: 0, room: 0, group: 0, right: RightSpec { ent: 0, own: false, all: false }, dt: DAY_MS, nb: false },
                     Step::LateJoin,
+                    Step::Grid,
+                ],
+            ));
+            out.push(mk(
+                "C10 an admin is added and changes the room before the third peer has seen it: the third peer imports both versions at once",
+                3,
+                vec![
+                    Step::NewRoom { who: 0, room: 0, admins: vec![0], groups: vec![own_only(vec![1, 2])], dt: 20 },
+                    Step::AddAdmin { who: 0, room: 0, key: 1, enabled: true, dt: 3_600_000, lag: true },
+                    Step::AddRight { who: 1, room: 0, group: 0, right: RightSpec { ent: 0, own: false, all: false }, dt: 3_600_000, nb: false },
+                    Step::Grid,
+                    Step::Restart { node: 2 },
                     Step::Grid,
                 ],
             ));
@@ -443,7 +491,7 @@ pub fn directed(property: &str) -> Vec<Trace> {
                     Step::NewRoom { who: 0, room: 0, admins: vec![0, 1], groups: vec![own_only(vec![1])], dt: 20 },
                     Step::AddRight { who: 0, room: 0, group: 0, right: RightSpec { ent: 0, own: false, all: false }, dt: DAY_MS, nb: false },
                     Step::AddRight { who: 0, room: 0, group: 0, right: RightSpec { ent: 3, own: true, all: false }, dt: DAY_MS, nb: false },
-                    Step::AddAdmin { who: 0, room: 0, key: 1, enabled: false, dt: 1000 },
+                    Step::AddAdmin { who: 0, room: 0, key: 1, enabled: false, dt: 1000, lag: false },
                     Step::Restart { node: 1 },
                     Step::Grid,
                 ],
@@ -455,8 +503,8 @@ pub fn directed(property: &str) -> Vec<Trace> {
                 2,
                 vec![
                     Step::NewRoom { who: 0, room: 0, admins: vec![0], groups: vec![full(vec![0, 1])], dt: 20 },
-                    Step::Create { who: 0, row: 0, room: 0, ent: 0, dt: DAY_MS },
-                    Step::Create { who: 0, row: 1, room: 0, ent: 0, dt: 1000 },
+                    Step::Create { who: 0, row: 0, room: 0, ent: 0, dt: DAY_MS, big: 0 },
+                    Step::Create { who: 0, row: 1, room: 0, ent: 0, dt: 1000, big: 0 },
                     Step::RefAdd { who: 0, row: 0, target: 1, dt: 1000 },
                     Step::RefDel { who: 1, row: 0, target: 1, dt: DAY_MS },
                     Step::RefAdd { who: 1, row: 0, target: 1, dt: 1000 },
@@ -472,8 +520,8 @@ pub fn directed(property: &str) -> Vec<Trace> {
                 2,
                 vec![
                     Step::NewRoom { who: 0, room: 0, admins: vec![0], groups: vec![own_only(vec![0, 1])], dt: 20 },
-                    Step::Create { who: 0, row: 0, room: 0, ent: 0, dt: DAY_MS },
-                    Step::Create { who: 1, row: 1, room: 0, ent: 0, dt: DAY_MS },
+                    Step::Create { who: 0, row: 0, room: 0, ent: 0, dt: DAY_MS, big: 0 },
+                    Step::Create { who: 1, row: 1, room: 0, ent: 0, dt: DAY_MS, big: 0 },
                     Step::RefAdd { who: 0, row: 0, target: 1, dt: DAY_MS },
                     Step::RefDel { who: 0, row: 0, target: 1, dt: DAY_MS },
                 ],
@@ -483,8 +531,8 @@ pub fn directed(property: &str) -> Vec<Trace> {
                 2,
                 vec![
                     Step::NewRoom { who: 0, room: 0, admins: vec![0], groups: vec![own_only(vec![0])], dt: 20 },
-                    Step::Create { who: 0, row: 0, room: 0, ent: 0, dt: DAY_MS },
-                    Step::Create { who: 1, row: 1, room: 0, ent: 0, dt: DAY_MS },
+                    Step::Create { who: 0, row: 0, room: 0, ent: 0, dt: DAY_MS, big: 0 },
+                    Step::Create { who: 1, row: 1, room: 0, ent: 0, dt: DAY_MS, big: 0 },
                 ],
             ));
         }
@@ -531,6 +579,7 @@ fn setup(c: &mut Ctx) -> Result<(), String> {
         conf.parallelism = 1;
         conf.enable_multicast = false;
         conf.enable_beacons = false;
+        conf.max_object_size_in_kb = 2;
         let mut n = SimNode::new(i, &format!("n{i}"), (10 + i * 20) as u8, &c.w.root, MODEL, conf, T0 + c.cfg.skew.get(i).cloned().unwrap_or(0), seed + i as u64);
         n.start()?;
         c.w.nodes.push(n);
@@ -695,7 +744,14 @@ fn attempt(c: &mut Ctx, who: usize, shape: &str, expected: Option<bool>, missing
                 c.w.violation("C01", &format!("accepted-but-denied/{shape}:{missing}"), format!("n{who} performed {shape} although the room's definition does not grant it ({missing})"));
             }
             if res.is_err() && exp {
-                c.w.violation("C01", &format!("refused-but-allowed/{shape}"), format!("n{who} was refused {shape} although the room's definition grants it: {}", res.clone().err().unwrap_or_default()));
+                let e = res.clone().err().unwrap_or_default();
+                if e.contains("malformed") {
+                    // the write itself failed in the storage engine: the full-text index does not hold the text it is asked
+                    // to remove (rows stored by the synchronisation path are never indexed, C17's open finding)
+                    c.w.violation("C01", "refused-but-allowed/full-text-index-error", format!("n{who} was refused {shape} although the room's definition grants it: {e}"));
+                } else {
+                    c.w.violation("C01", &format!("refused-but-allowed/{shape}"), format!("n{who} was refused {shape} although the room's definition grants it: {e}"));
+                }
             }
         }
         if res.is_err() {
@@ -757,7 +813,7 @@ fn exec_step(c: &mut Ctx, st: &Step) -> Result<(), String> {
                 after_def_change(c)?;
             }
         }
-        Step::AddAdmin { who, room, key, enabled, dt } => {
+        Step::AddAdmin { who, room, key, enabled, dt, lag } => {
             let (who, key) = (*who % n, *key % n);
             let Some(rr) = c.rooms.get(*room).cloned().flatten() else { return Ok(()) };
             c.now += dt.max(&20);
@@ -772,8 +828,18 @@ fn exec_step(c: &mut Ctx, st: &Step) -> Result<(), String> {
                 let r = c.rooms[*room].as_mut().unwrap();
                 r.admins.entry(key).or_default().push(Entry { date, enabled: *enabled });
                 r.dates.push(date);
-                barrier(c)?;
-                after_def_change(c)?;
+                if *lag && key != who {
+                    // only the new admin pulls: the others skip this version
+                    let uid = c.rooms[*room].as_ref().unwrap().uid;
+                    let (pn, sn) = c.w.two(key, who);
+                    let (_end, mut sess) = net::pull(pn, sn, uid, None).map_err(|e| format!("lagging pull hung: {e:?}"))?;
+                    sess.abandon();
+                    let _ = c.w.nodes[key].drain_events();
+                    c.w.fault("definition_version_skipped_by_the_other_peers");
+                } else {
+                    barrier(c)?;
+                    after_def_change(c)?;
+                }
             }
         }
         Step::AddGroup { who, room, spec, dt } => {
@@ -869,7 +935,7 @@ fn exec_step(c: &mut Ctx, st: &Step) -> Result<(), String> {
                 }
             }
         }
-        Step::Create { who, row, room, ent, dt } => {
+        Step::Create { who, row, room, ent, dt, big } => {
             let who = *who % n;
             let ent = *ent % 3;
             let Some(rr) = c.rooms.get(*room).cloned().flatten() else { return Ok(()) };
@@ -884,8 +950,14 @@ fn exec_step(c: &mut Ctx, st: &Step) -> Result<(), String> {
             let date = c.w.nodes[who].clock;
             let exp = rr.can(who, ENTS[ent], date, false);
             let q = format!("mutate {{ {}{{ room_id:$r name:$n }} }}", ENTS[ent]);
-            let p = serde_json::json!({"r": rr.id, "n": format!("row{row} v{}", c.ops)}).to_string();
-            let res = attempt(c, who, "create", Some(exp), "no-own-rows-right", false, &q, Some(p))?;
+            let text = if *big > 0 { format!("row{row} {}", "x".repeat(*big)) } else { format!("row{row} v{}", c.ops) };
+            let p = serde_json::json!({"r": rr.id, "n": text}).to_string();
+            // a row close to the size limit may be refused for its size: no expectation from the rights then
+            let expectation = if *big > 0 { None } else { Some(exp) };
+            if *big > 0 {
+                c.w.fault("row_close_to_the_size_limit");
+            }
+            let res = attempt(c, who, if *big > 0 { "create-close-to-the-size-limit" } else { "create" }, expectation, "no-own-rows-right", false, &q, Some(p))?;
             match res {
                 Ok(r) => {
                     let v: serde_json::Value = serde_json::from_str(&r).map_err(|e| e.to_string())?;
